@@ -211,10 +211,11 @@ type c28Update struct {
 	withdraw []c27NLRI
 	attrs    c28Route // template (nh, lp, med, origin, aspath)
 	asns     []uint32
+	legacy   bool // AS_PATH in the legacy 2-octet format (the message carries the A flag, RFC 7854 4.2)
 }
 
 func (u c28Update) bytes(addPath bool) []byte {
-	attrs := c27cat(c27AttrOrigin(u.attrs.origin), c27AttrASPath(u.asns, true), c27AttrLocalPref(u.attrs.lp), c27AttrMED(u.attrs.med))
+	attrs := c27cat(c27AttrOrigin(u.attrs.origin), c27AttrASPath(u.asns, !u.legacy), c27AttrLocalPref(u.attrs.lp), c27AttrMED(u.attrs.med))
 	if u.v6 {
 		var nh [16]byte
 		nh[0], nh[1], nh[2], nh[3], nh[15] = 0x20, 0x01, 0x0d, 0xb8, 0x99
@@ -566,7 +567,16 @@ func c28Run(t *rapid.T, c *kit.Case) string {
 				ignoredFlavour = true
 				c.Class("rm_ignored_flavour")
 			}
-			desc = fmt.Sprintf("route-monitoring peer %d (up=%v ignoredFlavour=%v) %s", p.idx, p.up, ignoredFlavour, c28Describe(u))
+			fits := true
+			for _, a := range u.asns {
+				fits = fits && a <= 65535
+			}
+			if fits && rapid.IntRange(0, 3).Draw(t, "legacy_aspath") == 0 {
+				u.legacy = true
+				pph.Flags |= c27FlagA
+				c.Class("rm_legacy_aspath_format")
+			}
+			desc = fmt.Sprintf("route-monitoring peer %d (up=%v ignoredFlavour=%v A=%v) %s", p.idx, p.up, ignoredFlavour, u.legacy, c28Describe(u))
 			w.r.processMsg(c27RouteMon(pph, u.bytes(p.addPath)))
 			if p.up && !ignoredFlavour {
 				u.apply(p, p.pph.Flags&c27FlagL != 0)
